@@ -1,5 +1,7 @@
 """C11 -- derived data stays coherent; queries do not move objects
 (S1, S2, S3, P1, U1)."""
+from ..rules import numpy_rules as NP
+from ..rules import dtype_rules as DT
 from ..rules import proj_rules as P
 from ..rules import cache_rules as CA
 from ..rules import shape_rules as SH
@@ -31,6 +33,8 @@ def run(ctx):
     ctx.do(CA.rule_cls1, "ProjectiveObject")
     ctx.do(P.rule_fr1, accessors=False)
     ctx.do(P.rule_ts1)
+    ctx.do(NP.rule_ord1, ["geometry_tools/projective.py", "geometry_tools/hyperbolic.py"])
+    ctx.do(DT.rule_lk2, ["geometry_tools/projective.py"])
     ctx.do(SH.rule_sh3)
     ctx.do(SH.rule_sh7, only={
         "Polygon.flatten_to_unit", "Polygon.reshape", "Polygon.astype",
